@@ -333,6 +333,30 @@ pub fn regeometry(dir: &str, out: &mut Vec<Value>) {
     let _ = std::fs::remove_dir_all(&path);
 }
 
+/// re-creation right after the drop under other shapes of the storage configuration: a location without the
+/// "temporary" key (the store then removes the directory when the instance is dropped - re-creating while it lingers
+/// must still succeed; added after C18-m10) - only success within the bound is demanded
+#[cfg(feature = "pmtree")]
+pub fn recreate_shapes(dir: &str, n: usize, out: &mut Vec<Value>) {
+    for (shape, cfg) in [("path-only", json!({"path": format!("{dir}/shape-path-only")})),
+                         ("path-only-lowspace", json!({"path": format!("{dir}/shape-path-ls"), "mode": "LowSpace", "cache_capacity": 1000000u64}))] {
+        for k in 0..n {
+            let t0 = Instant::now();
+            let r = catch(AssertUnwindSafe(|| new_rln(14, &cfg)));
+            let ms = t0.elapsed().as_millis() as u64;
+            match r {
+                Ok(Ok(mut r)) => {
+                    let _ = r.set_leaf(k, Cursor::new(enc_fr(&Fr::from(k as u64 + 1))));
+                    out.push(json!({"t": "recreate", "shape": shape, "n": k, "res": "ok", "ms": ms}));
+                    drop(r);
+                }
+                Ok(Err(e)) => out.push(json!({"t": "recreate", "shape": shape, "n": k, "res": "err", "ms": ms, "msg": e.to_string().chars().take(200).collect::<String>()})),
+                Err(m) => out.push(json!({"t": "recreate", "shape": shape, "n": k, "res": "panic", "ms": ms, "msg": m})),
+            }
+        }
+    }
+}
+
 #[cfg(feature = "pmtree")]
 pub fn reopen(dir: &str, n: usize, out: &mut Vec<Value>) {
     let path = format!("{dir}/reopen-db");
